@@ -31,7 +31,7 @@ DEPS = {
     'c11': ['c20'],
     'c12': ['c11'],
     'c13': ['c11'],
-    'c14': ['c11', 'c12'],
+    'c14': ['c11', 'c12', 'c13'],
     'c15': [],
     'c16': ['c15', 'c20'],
     'c17': [],
